@@ -36,7 +36,7 @@ def main():
       "hooks": {
         "guard": "ASMJIT_VERIF",
         "enable": "tools/build.py compiles every translation unit of /repo/asmjit (except asmjit/ujit) with -DASMJIT_STATIC -DASMJIT_VERIF -DASMJIT_NO_UJIT into build/lib-<flavour>-<hash>/libasmjit_v.a; the harness provides asmjit_verif_arena_request / asmjit_verif_tune / asmjit_verif_shared",
-        "baseline_off_cmd": "cmake --build /repo/_build -j16 && ctest --test-dir /repo/_build -j8 --timeout 900",
+        "baseline_off_cmd": "cmake -G Ninja -S /repo -B /repo/_build -DASMJIT_TEST=ON >/dev/null && cmake --build /repo/_build -j16 && ctest --test-dir /repo/_build -j8 --timeout 900",
         "source_commits": [h.split()[0] for h in hooks][::-1],
         "add_only": True
       },
